@@ -1167,6 +1167,12 @@ def corpus():
              [Impl(0, ("C0", (S(0),)), [("C0", (S(1),))]), Impl(0, ("C0", (S(1),)), [("C0", (S(3),)), ("C0", (S(2),))]),
               Impl(0, ("C0", (S(2),)), [("C0", (S(1),)), ("C0", (S(3),))]), Impl(0, ("C0", (S(3),)), [("C0", (S(2),))])], "corpus-F7q")
     out.append((p, [("atom", ("C0", (S(0),))), ("atom", ("C0", (S(1),)))]))
+    # F14b: SLG loses answers on a coinductive SCC entered through a blanket clause
+    q = _andor_prog([("P0", True), ("P1", True), ("P2", True), ("P4", True)],
+                    [("P4", ["P1", "P0", "P2"]), ("P2", ["P4"]), ("P1", ["P2"]), ("P0", ["P2"])], [("P4", "B")], "corpus-F14b", 2)
+    q.order = [("trait", 0), ("impl", 0), ("impl", 4), ("trait", 1), ("adt", 0), ("trait", 3), ("adt", 1), ("impl", 1), ("impl", 2), ("trait", 2), ("impl", 3)]
+    out.append((q, [("exists", (2, 3), ("and", (("atom", ("P1", (var(2),))), ("atom", ("P4", (var(3),)))))),
+                    ("atom", ("P1", (adt("A"),))), ("forall", (4,), ("atom", ("P4", (var(4),))))]))
     # provisional result read by a sibling (recursive solver, minimums.update_from seed)
     # (the recursive solver works through where-clauses back to front and impls in declaration
     #  order; the witnesses need one particular order, so all four reversals are kept)
